@@ -31,7 +31,8 @@ def time_roles(ctx, f, start_field, who):
     if len(nows) != 1:
         raise AnalysisBroken("anchor: %s keeps the clock reading in %d locals %s; the window rules need exactly one" % (f.pq, len(nows), nows))
     NOW = nows[0]
-    ages = locals_receiving(f, r"duration_cast\(\(%s - this->%s\)\)\.count\(\)" % (re.escape(NOW), re.escape(start_field)))
+    ages = locals_receiving(f, r"duration_cast\(\(%s - this->%s\)\)\.count\(\)" % (re.escape(NOW), re.escape(start_field)),
+                            text=lambda n_: hoist_text(f, n_, ctx.prog))
     if len(ages) != 1:
         raise AnalysisBroken("anchor: %s keeps the age of %s in %d locals %s; the window rules need exactly one" % (f.pq, start_field, len(ages), ages))
     return NOW, ages[0]
@@ -49,7 +50,7 @@ def age_checks(ctx, f, NOW, AGE, start_field, who):
                 ty = nn.get("type", "").replace(" ", "")
                 # duration<long> == duration<long, ratio<1,1>> == seconds
                 secs = "seconds" in ty or ty.endswith("std::chrono::duration<long>>") or ty in ("std::chrono::duration<long>", "std::chrono::duration<long,std::ratio<1,1>>")
-    ctx.check(v is not None and re.match(r"^std::chrono::duration_cast\(\(%s - this->%s\)\)\.count\(\)$" % (re.escape(NOW), re.escape(start_field)), f.text(init)) is not None and secs,
+    ctx.check(v is not None and re.match(r"^std::chrono::duration_cast\(\(%s - this->%s\)\)\.count\(\)$" % (re.escape(NOW), re.escape(start_field)), hoist_text(f, init, ctx.prog)) is not None and secs,
               who + ":age-in-whole-seconds", "value-shape", f.loc(), "age = duration_cast<seconds>(now - start).count()", "age = " + (f.text(init) if v else "?"))
 
 
@@ -270,7 +271,7 @@ def run(ctx):
                 okm = False
     ctx.check(okm, "memory_reclaim:growth-always-stamps", "must_follow", mr.loc(), "growth of pgscan always updates the reclaim time before the age is computed", "pgscan growth can be missed")
     age_checks(ctx, mr, NOW, AGE, "last_reclaim_at_", "memory_reclaim")
-    ctx.check(v is not None and re.match(r"^std::chrono::duration_cast\(\(%s - this->last_reclaim_at_\)\)\.count\(\)$" % re.escape(NOW), mr.text(init)) is not None, "memory_reclaim:age", "value-shape", mr.loc(),
+    ctx.check(v is not None and re.match(r"^std::chrono::duration_cast\(\(%s - this->last_reclaim_at_\)\)\.count\(\)$" % re.escape(NOW), hoist_text(mr, init, P)) is not None, "memory_reclaim:age", "value-shape", mr.loc(),
               "age = seconds(now - last_reclaim_at_)", "age = " + (mr.text(init) if v else "?"))
     agek = "(this->duration_ < %s)" % AGE
     for r, leaf in return_leaves(mr):
